@@ -126,8 +126,12 @@ func (self VMFatalExceptionKind) String() string {
 		return "OutOfMemoryError"
 	case Vm_ValueErrorKind:
 		return "ValueError"
+	case Vm_ImportErrorKind:
+		return "ImportError"
 	case Vm_HostErrorKind:
 		return "HostError"
+	case Vm_JsonErrorKind:
+		return "JsonError"
 	case Vm_CastErrorKind:
 		return "CastError"
 	case Vm_IndexOutOfBoundsErrorKind:
